@@ -232,6 +232,10 @@ var c11Visits = Register(Prop[c11Case]{
 		return c
 	},
 	Run: runC11,
+	Minimize: func(c c11Case, stillFails func(c11Case) bool) c11Case {
+		c.flowCase = minimizeFlow(c.flowCase, func(f flowCase) bool { cc := c; cc.flowCase = f; return stillFails(cc) })
+		return c
+	},
 	Render: func(c c11Case) any {
 		return map[string]any{"files": renderCanonical(c.Script), "choices": c.Choices, "restore": c.Restore}
 	},
@@ -274,7 +278,7 @@ var c11AllPaths = Register(Prop[flowCase]{
 		c.Choices, c.Junk = nil, nil
 		return c
 	},
-	Run: runC11AllPaths, Render: renderFlow,
+	Run: runC11AllPaths, Render: renderFlow, Minimize: minimizeFlow,
 })
 
 func TestC11AllPaths(t *testing.T) { Check(t, c11AllPaths) }
@@ -354,6 +358,18 @@ var c12End = Register(Prop[c12Case]{
 		return c
 	},
 	Run: runC12,
+	Minimize: func(c c12Case, stillFails func(c12Case) bool) c12Case {
+		c.flowCase = minimizeFlow(c.flowCase, func(f flowCase) bool { cc := c; cc.flowCase = f; return stillFails(cc) })
+		for len(c.After) > 1 {
+			cc := c
+			cc.After = c.After[1:]
+			if !stillFails(cc) {
+				break
+			}
+			c = cc
+		}
+		return c
+	},
 	Render: func(c c12Case) any {
 		return map[string]any{"files": renderCanonical(c.Script), "choices": c.Choices, "next_arguments_after_end": c.After}
 	},
